@@ -193,6 +193,7 @@ typedef struct {
   VChoices *c;
   int est_temps, est_insns;
   int ops[256], nops;
+  int cur_lsize, cur_mult;      /* lane size / multiplier of the operand being chosen */
 } Gen;
 
 static int op_allowed (const Gen *g, const VOp *op)
@@ -284,9 +285,28 @@ static int general_const (Gen *g, int size, int is_float_operand, int want_param
   int kind = want_param ? VK_PARAM : VK_CONST;
   uint32_t ch = vc_u32 (g->c);
   n = find_vars (ps, kind, size, 0, cand);
-  if (n && ((ch & 3) == 0 || ps->count[kind] >= kind_max[kind])) return cand[(ch >> 2) % (uint32_t) n];
+  if (v_excluded ("const-two-lane-sizes")) {
+    /* known finding: a constant/parameter is not reused with another lane size of the same total size */
+    int k, m = 0;
+    for (k = 0; k < n; k++) {
+      const PVar *pv = &ps->vars[cand[k]];
+      if (pv->use_lsize == 0 || (pv->use_lsize == g->cur_lsize && pv->use_mult == g->cur_mult)) cand[m++] = cand[k];
+    }
+    n = m;
+  }
+  if (n && ((ch & 3) == 0 || ps->count[kind] >= kind_max[kind])) {
+    v = cand[(ch >> 2) % (uint32_t) n];
+    if (!ps->vars[v].use_lsize) { ps->vars[v].use_lsize = g->cur_lsize; ps->vars[v].use_mult = g->cur_mult; }
+    return v;
+  }
   v = ps_addvar (ps, kind, size);
-  if (v < 0) return n ? cand[(ch >> 2) % (uint32_t) n] : -1;
+  if (v < 0) {
+    if (!n) return -1;
+    v = cand[(ch >> 2) % (uint32_t) n];
+    if (!ps->vars[v].use_lsize) { ps->vars[v].use_lsize = g->cur_lsize; ps->vars[v].use_mult = g->cur_mult; }
+    return v;
+  }
+  ps->vars[v].use_lsize = g->cur_lsize; ps->vars[v].use_mult = g->cur_mult;
   if (kind == VK_CONST) {
     ps->vars[v].cval = is_float_operand && size >= 4 ? v_float_value (size, ch >> 2) : v_value (size, ch >> 2);
   } else {
@@ -436,6 +456,7 @@ static int gen_insn (Gen *g, const VOp *op, int last)
       else v = -1;
       if (v < 0 && n) v = cand[vc_pick (g->c, (uint32_t) n)];
     } else {
+      g->cur_lsize = op->ssz[j]; g->cur_mult = mult;
       v = general_operand (g, op->ssz[j] * mult, fsrc);
     }
     if (v < 0) goto undo;
@@ -552,6 +573,22 @@ static void ps_finalize (Gen *g)
   ps->max_live_temps = ntemps;
   {
     int j, k;
+    /* constants/parameters used with two lane configurations of equal total size */
+    for (i = 0; i < ps->nvars; i++) {
+      int l0 = 0, m0 = 0;
+      if (ps->vars[i].kind != VK_CONST && ps->vars[i].kind != VK_PARAM) continue;
+      for (j = 0; j < ps->nins; j++) {
+        const PInsn *in = &ps->ins[j];
+        int mult = (in->flags & ORC_INSTRUCTION_FLAG_X2) ? 2 : (in->flags & ORC_INSTRUCTION_FLAG_X4) ? 4 : 1;
+        if (in->op->flags & VOP_LOAD) continue;
+        for (k = 0; k < 3 && in->op->ssz[k]; k++) {
+          if (in->s[k] != i) continue;
+          if ((in->op->flags & VOP_SCALAR) && k >= 1) continue;
+          if (!l0) { l0 = in->op->ssz[k]; m0 = mult; }
+          else if (l0 * m0 == in->op->ssz[k] * mult && l0 != in->op->ssz[k]) ps->const_two_lanes = 1;
+        }
+      }
+    }
     for (j = 0; j < ps->nins; j++)
       if (ps->ins[j].op->flags & VOP_ACC)
         for (k = 0; k < 3 && ps->ins[j].op->ssz[k]; k++)
